@@ -21,7 +21,7 @@ enum { EV_LAUNCH_CALL = 1, EV_LAUNCH_RET, EV_FN_ENTER, EV_FN_EXIT, EV_ATEXIT, EV
 
 enum { F_MANAGED, F_MANUAL, F_NESTED_MANAGED, F_ATEXIT_MULTI, F_CREATE_FAILED, F_JOINALL_BEFORE_FINISH, F_JOINALL_AFTER_FINISH, F_NAMED, F_PINNED_RETRY,
        F_MANY_THREADS, F_MANUAL_LAUNCHES_MANAGED, F_STACK_SIZE, F_TIMED_JOINALL_GAVE_UP, F_REINIT_WITH_THREADS_OUTSTANDING,
-       F_TIMED_JOINALL_COMPLETED, F_EXTERNAL_PARTICIPANT, F_EXTERNAL_RELEASED_DURING_JOINALL };
+       F_TIMED_JOINALL_COMPLETED, F_EXTERNAL_PARTICIPANT, F_EXTERNAL_RELEASED_DURING_JOINALL, F_ATEXIT_FROM_CALL_ONCE };
 
 #define MAX_T 56
 #define MAX_ATEXIT 5
@@ -45,6 +45,7 @@ struct tdesc {
                       joined and released by an owner thread of the harness, not by main */
     uint32_t owner_nap_us, owner_gap_us;
     int owner_lane;
+    int once_at; /* >= 0: at-exit callback number once_at is registered from inside an aws_thread_call_once function */
 };
 
 static struct {
@@ -77,6 +78,16 @@ static void atexit_cb(void *user) {
 
 static void launch_one(struct tdesc *d);
 
+static aws_thread_once s_once[MAX_T];
+static int s_once_ran[MAX_T];
+static void once_fn(void *user) {
+    struct atexit_arg *a = user;
+    ++s_once_ran[a->tid];
+    if (aws_thread_current_at_exit(atexit_cb, a)) {
+        mon_violation("C20:at-exit-registration-failed", "aws_thread_current_at_exit inside a call_once function failed on thread %d (error %d)", a->tid, aws_last_error());
+    }
+}
+
 static void thread_main(void *arg) {
     struct tdesc *d = arg;
     mon_ev_bind((unsigned)(d->id + 1));
@@ -91,7 +102,16 @@ static void thread_main(void *arg) {
         s_atexit_args[d->id][k].tid = d->id;
         s_atexit_args[d->id][k].k = k;
         s_atexit_args[d->id][k].expect_thread = pthread_self();
-        if (aws_thread_current_at_exit(atexit_cb, &s_atexit_args[d->id][k])) {
+        if (k == d->once_at) {
+            /* lazy one-time initialisation that hooks its tear-down to the initialising thread */
+            s_once[d->id] = (aws_thread_once)AWS_THREAD_ONCE_STATIC_INIT;
+            s_once_ran[d->id] = 0;
+            aws_thread_call_once(&s_once[d->id], once_fn, &s_atexit_args[d->id][k]);
+            aws_thread_call_once(&s_once[d->id], once_fn, &s_atexit_args[d->id][k]);
+            if (s_once_ran[d->id] != 1) {
+                mon_violation("C20:call-once", "aws_thread_call_once ran its function %d times on thread %d", s_once_ran[d->id], d->id);
+            }
+        } else if (aws_thread_current_at_exit(atexit_cb, &s_atexit_args[d->id][k])) {
             mon_violation("C20:at-exit-registration-failed", "aws_thread_current_at_exit failed on thread %d (error %d)", d->id, aws_last_error());
         }
     }
@@ -186,6 +206,7 @@ static void generate(struct mon_rng *r) {
     for (int i = 0; i < S.n; ++i) {
         struct tdesc *d = &S.t[i];
         d->natexit = mon_chance(r, 1, 2) ? 0 : (int)mon_below(r, MAX_ATEXIT + 1);
+        d->once_at = (d->natexit && mon_chance(r, 1, 3)) ? (int)mon_below(r, (uint64_t)d->natexit) : -1;
         d->sleep_before_us = mon_chance(r, 1, 2) ? 0 : (uint32_t)mon_below(r, 400);
         d->sleep_after_us = mon_chance(r, 1, 2) ? 0 : (uint32_t)mon_below(r, 600);
         if (mon_chance(r, 1, 8)) {
@@ -357,6 +378,9 @@ static void check(struct mon_event *ev, size_t n, const struct mon_alloc_stats *
         }
         if (d->natexit > 1) {
             mon_flag(F_ATEXIT_MULTI);
+        }
+        if (d->once_at >= 0) {
+            mon_flag(F_ATEXIT_FROM_CALL_ONCE);
         }
     }
     size_t count = aws_thread_get_managed_thread_count();
@@ -626,7 +650,8 @@ int main(int argc, char **argv) {
                                   "join_all_called_before_all_finished", "join_all_called_after_all_finished", "named_thread", "pinned_launch_with_fault_retry",
                                   "16_or_more_threads", "manual_thread_launched_managed", "explicit_stack_size", "timed_join_all_gave_up",
                                   "library_reinit_with_managed_threads_outstanding", "timed_join_all_completed",
-                                  "externally_counted_manual_thread", "external_decrement_while_join_all_blocked"};
+                                  "externally_counted_manual_thread", "external_decrement_while_join_all_blocked",
+                                  "at_exit_registered_inside_call_once"};
     for (int i = 0; i < (int)(sizeof(names) / sizeof(names[0])); ++i) {
         mon_flag_name(i, names[i]);
     }
